@@ -543,34 +543,63 @@ def run_host(ctx: Ctx, case: dict) -> list[str]:
 
     nq = case["nq"]
     host = lw.Circuit(2 * nq)
+
+    def place(target, step):
+        """add one step to `target`; returns (matrix on nq qubits, |scalar|^2)"""
+        from lightworks import qubit
+
+        if "sub" in step:
+            # a building block of the host's width holding SEVERAL gates (heralded ones in any order of positions),
+            # added to the host in one call
+            block = lw.Circuit(2 * nq)
+            m_tot, sq_tot = np.eye(2 ** nq, dtype=complex), Fraction(1)
+            for inner in step["sub"]:
+                m, sq = place(block, inner)
+                m_tot, sq_tot = m @ m_tot, sq_tot * sq
+            target.add(block, 0, group=step["group"])
+            return m_tot, sq_tot
+        if "swap" in step:
+            a, b = step["swap"]
+            target.add(qubit.SWAP((2 * a, 2 * a + 1), (2 * b, 2 * b + 1)), 0, group=step["group"])
+            perm = np.zeros((2 ** nq, 2 ** nq), dtype=complex)
+            for x in range(2 ** nq):
+                bits_x = [(x >> (nq - 1 - k)) & 1 for k in range(nq)]
+                bits_x[a], bits_x[b] = bits_x[b], bits_x[a]
+                perm[sum(bt << (nq - 1 - k) for k, bt in enumerate(bits_x)), x] = 1
+            return perm, Fraction(1)
+        gcase = step["gate_case"]
+        q = step["q"]
+        gate = build_impl(gcase)
+        blk = step.get("block")
+        if blk:
+            # the gate is first put into a building block (at local qubit `pad`, grouped or not) and the block
+            # is then placed in the host at an offset, grouped or not
+            pad, width_q, g_inner = blk
+            block = lw.Circuit(2 * width_q)
+            block.add(gate, 2 * pad, group=g_inner)
+            target.add(block, 2 * (q - pad), group=step["group"])
+        else:
+            target.add(gate, 2 * q, group=step["group"])
+        g = gcase["gate"]
+        if g in FIXED_SINGLE or g in ROT:
+            return embed_gate(nq, [q], qg.named_single(g, {"theta": theta_of(gcase)} if g in ROT else None)), Fraction(1)
+        return embed_gate(nq, [q, q + 1], qg.named_multi(g, gcase.get("target", 1))), SCALAR_SQ[g]
+
     want = np.eye(2 ** nq, dtype=complex)
     want_sq = Fraction(1)
     for step in case["gates"]:
-        gcase = step["gate_case"]
-        q = step["q"]
         try:
-            gate = build_impl(gcase)
-            blk = step.get("block")
-            if blk:
-                # the gate is first put into a building block (at local qubit `pad`, grouped or not) and the block
-                # is then placed in the host at an offset, grouped or not
-                pad, width_q, g_inner = blk
-                block = lw.Circuit(2 * width_q)
-                block.add(gate, 2 * pad, group=g_inner)
-                host.add(block, 2 * (q - pad), group=step["group"])
-            else:
-                host.add(gate, 2 * q, group=step["group"])
+            m, sq = place(host, step)
         except Exception as e:  # noqa: BLE001
-            return [f"oracle: host: adding {describe(gcase)} on qubit {q} raised {exc_class(e)} (program {case['gates']})"]
-        g = gcase["gate"]
-        if g in FIXED_SINGLE or g in ROT:
-            m = qg.named_single(g, {"theta": theta_of(gcase)} if g in ROT else None)
-            qs = [q]
-        else:
-            m = qg.named_multi(g, gcase.get("target", 1))
-            qs = [q, q + 1]
-            want_sq *= SCALAR_SQ[g]
-        want = embed_gate(nq, qs, m) @ want
+            return [f"oracle: host: adding step {json.dumps(step)[:160]} raised {exc_class(e)} (program {case['gates']})"]
+        want = m @ want
+        want_sq *= sq
+    for rw in case.get("rewrites", []):
+        # the circuit's own tidy-up methods must leave the gates it implements alone
+        try:
+            getattr(host, rw)()
+        except Exception as e:  # noqa: BLE001
+            return [f"oracle: host: {rw}() raised {exc_class(e)} (program {case['gates']})"]
     bits = qg.bit_strings(nq)
     inputs = [qg.dual_rail(b) for b in bits]
     try:
@@ -587,13 +616,16 @@ def run_host(ctx: Ctx, case: dict) -> list[str]:
                 leak = max(leak, abs(amp))
     k, resid = qg.fit_scalar(a, want)
     probs = []
-    prog = [(describe(st["gate_case"]), st["q"], st["group"]) for st in case["gates"]]
+    prog = [(describe(st["gate_case"]), st["q"], st["group"]) if "gate_case" in st else st for st in case["gates"]]
+    if case.get("rewrites"):
+        prog.append(("then", case["rewrites"]))
     if resid > TOL:
         probs.append(f"oracle: host: {nq}-qubit host built by {prog}: amplitudes on the dual-rail basis are not a "
                      f"common scalar times the ordered product of the named gates (max residual {resid:.3e})")
     if abs(abs(k) ** 2 - float(want_sq)) > TOL:
         probs.append(f"oracle: host: {prog}: |scalar|^2 = {abs(k) ** 2:.12f}, expected {want_sq}")
-    has_ps = any(st["gate_case"]["gate"] in ("CZ", "CNOT") for st in case["gates"])
+    flat = [x for st in case["gates"] for x in (st["sub"] if "sub" in st else [st])]
+    has_ps = any(st.get("gate_case", {}).get("gate") in ("CZ", "CNOT") for st in flat)
     if leak > TOL and not has_ps:
         probs.append(f"oracle: host: {prog}: accepted output outside the qubit subspace has amplitude {leak:.3e}")
     return probs
@@ -628,10 +660,44 @@ def gen_host(rng) -> dict:
         gates.insert(rng.randint(0, len(gates)), {"gate_case": gc, "q": rng.randint(0, nq - 2), "group": rng.random() < 0.6})
     # a gate on the highest qubit last: it sits above every ancilla created before
     gates.append({"gate_case": gen_rotation(rng), "q": nq - 1, "group": rng.random() < 0.5})
-    return {"stream": "host", "nq": nq, "gates": gates}
+    # qubit SWAPs around the gates
+    for _ in range(rng.choice([0, 0, 1, 2])):
+        a, b = rng.sample(range(nq), 2)
+        gates.insert(rng.randint(0, len(gates)), {"swap": [a, b], "group": rng.random() < 0.5})
+    # a run of consecutive steps travels inside ONE building block (so that one add() carries several heralded gates,
+    # whose ancillas were created in any order of positions)
+    if len(gates) >= 3 and rng.random() < 0.45:
+        i = rng.randint(0, len(gates) - 2)
+        j = rng.randint(i + 2, min(len(gates), i + 4))
+        gates[i:j] = [{"sub": gates[i:j], "group": rng.random() < 0.5}]
+    case = {"stream": "host", "nq": nq, "gates": gates}
+    if rng.random() < 0.5:
+        case["rewrites"] = rng.sample(["compress_mode_swaps", "unpack_groups", "remove_non_adjacent_bs"], rng.randint(1, 3))
+    return case
 
 
 HOST_CORPUS = [
+    # a block holding two heralded gates created upper gate first, added to a host that already holds a heralded gate
+    {"stream": "host", "nq": 4, "gates": [
+        {"gate_case": {"gate": "CZ_Heralded"}, "q": 2, "group": True},
+        {"sub": [{"gate_case": {"gate": "CZ_Heralded"}, "q": 1, "group": True},
+                 {"gate_case": {"gate": "CNOT_Heralded", "target": 1}, "q": 0, "group": True}], "group": False},
+        {"gate_case": {"gate": "H"}, "q": 3, "group": False}]},
+    {"stream": "host", "nq": 4, "gates": [
+        {"gate_case": {"gate": "CNOT_Heralded", "target": 0}, "q": 1, "group": True},
+        {"sub": [{"gate_case": {"gate": "CNOT_Heralded", "target": 1}, "q": 2, "group": True},
+                 {"gate_case": {"gate": "CZ_Heralded"}, "q": 0, "group": True}], "group": True},
+        {"gate_case": {"gate": "T"}, "q": 3, "group": False}]},
+    # SWAP - heralded gate - SWAP, then the tidy-up methods
+    {"stream": "host", "nq": 3, "gates": [
+        {"swap": [1, 2], "group": False},
+        {"gate_case": {"gate": "CZ_Heralded"}, "q": 0, "group": True},
+        {"swap": [1, 2], "group": False}], "rewrites": ["compress_mode_swaps"]},
+    {"stream": "host", "nq": 3, "gates": [
+        {"swap": [1, 2], "group": False},
+        {"gate_case": {"gate": "CNOT_Heralded", "target": 0}, "q": 0, "group": True},
+        {"swap": [1, 2], "group": False},
+        {"gate_case": {"gate": "H"}, "q": 2, "group": False}], "rewrites": ["compress_mode_swaps", "unpack_groups"]},
     # gates inside grouped building blocks placed at an offset, ungrouped and grouped
     {"stream": "host", "nq": 3, "gates": [
         {"gate_case": {"gate": "H"}, "q": 1, "group": False, "block": [1, 2, True]},
